@@ -246,3 +246,19 @@ class Reporter:
             self.ctx.log("not reported separately (failing inputs above carry them): " +
                          "; ".join(str(p[0].get("unchecked")) for p in self.pending))
         self.ctx.cov["deferred_items"] = [p[0].get("unchecked") for p in self.pending]
+
+
+# ---------------------------------------------------------------- function tie (go/ast -> Gallina)
+def tie_functions(ctx):
+    """(T) CloneBase, FactoryOf, GError.Is, Unwrap, ExtractFactoryReference and their unexported
+    helpers are translated from the current source to Gallina (harness/cmd/xlate_gerr_wiring -fns)
+    and proved equal to the hand model for ALL arguments (semantic tie lemmas, props/gerr_tie_lib.py,
+    coq/theories/GErrTie.v).  Returns the dict of gerr_tie_lib.tie_functions, cached per run."""
+    if getattr(ctx, "_fn_tie", None) is None:
+        try:
+            import gerr_tie_lib
+            ctx._fn_tie = gerr_tie_lib.tie_functions(ctx)
+        except Exception as e:  # noqa: a broken tie library is a broken tie
+            ctx._fn_tie = {"ok": False, "variant": None, "appends_clipped": None, "lemmas": 0,
+                           "detail": "function tie could not be run: %r" % (e,)}
+    return ctx._fn_tie
